@@ -58,7 +58,7 @@ def main(tier):
                  extra_complexity_differs=0)
     nviol = tie = 0
     try:
-        model_ok = cc.coq_analyse(mods, "C03")
+        model_ok = cc.coq_analyse(mods, "C03") and cc.coq_build(mods, "C03")
     except Exception as e:
         model_ok = False
         ck.broken_ties.append("model evaluation failed: " + str(e)[-1500:])
@@ -105,6 +105,11 @@ def main(tier):
                     continue
                 rec = [r for r in m["model"] if r["k"] == k0][0]
                 stats["functions"] += 1
+                bcx = m["builder"].get(k0, {}).get("cx")
+                if bcx is not None and c != bcx:
+                    tie += 1
+                    if tie <= 3:
+                        ck.broken_ties.append("builder tie: complexity of %s in %s: pyscn %d, Builder.v %d" % (name, m["path"], c, bcx))
                 if m.get("extra") or not rec["c03"]:
                     stats["extra_functions"] += 1
                     if c != rec["cx"]:
